@@ -456,7 +456,7 @@ def rule_simplify_neighbours(db, chk, cfg, rule="NEIGHBOURS.fresh"):
 # EPS.degree: an epsilon is a length, a squared epsilon a squared length
 # ---------------------------------------------------------------------------
 
-_SQ = re.compile(r'(sqr|sqrd|squared|_sq$|Sq$)', re.I)
+_SQ = re.compile(r'(sqr|sqrd|squared|_sq$|Sq$|2$)', re.I)
 _EPS = re.compile(r'(eps|epsilon|tolerance|max_dist|dist)', re.I)
 
 
